@@ -193,11 +193,53 @@ pub fn run(o: &Opts) {
       }
     }
   }
+  // ---- configurations that name the parser's special kinds (ERROR is the documented way to report syntax errors; its
+  //      kind id lies outside the grammar's own table) alone and inside every operator, on broken and clean sources
+  {
+    let d3 = fresh_dir(&o.out, "special_kinds");
+    let bodies = [
+      "  kind: ERROR\n",
+      "  any:\n    - kind: ERROR\n    - pattern: foo($A)\n",
+      "  pattern: foo($$$A)\n  has:\n    kind: ERROR\n    stopBy: end\n",
+      "  kind: ERROR\n  not:\n    has:\n      kind: number\n",
+      "  all:\n    - kind: ERROR\n    - regex: '.'\n",
+      "  kind: number\n  inside:\n    kind: ERROR\n    stopBy: end\n",
+      "  matches: E\nutils:\n  E:\n    kind: ERROR\n",
+      "  kind: identifier\n  follows:\n    kind: ERROR\n",
+    ];
+    let texts = ["foo(1", "let = ;\nfoo(2)\n", "class {\n", "}{", "foo(1)\nbar(2)\n", "", "foo(1, , 2))\n// ast-grep-ignore\nlet let\n", "é(((\n"];
+    for (bi, body) in bodies.iter().enumerate() {
+      for lang in ["TypeScript", "Python", "Rust"] {
+        let second = if bi % 2 == 0 { format!("---\nid: other\nlanguage: {lang}\nmessage: o\nrule:\n  pattern: bar($A)\n") } else { String::new() };
+        std::fs::write(d3.join("rule.yml"), format!("id: special\nlanguage: {lang}\nseverity: warning\nmessage: m\nrule:\n{body}{second}")).unwrap();
+        let ext = match lang { "TypeScript" => "ts", "Python" => "py", _ => "rs" };
+        for (ti, text) in texts.iter().enumerate() {
+          if !o.thorough && (bi + ti) % 2 == 1 && lang != "TypeScript" {
+            continue;
+          }
+          let f = format!("s.{ext}");
+          std::fs::write(d3.join(&f), text).unwrap();
+          let r = if ti % 3 == 2 { sg(&d3, &["scan", "-r", "rule.yml", "--stdin", "--json=stream"], Some(text), 15) } else { sg(&d3, &["scan", "-r", "rule.yml", "--json=stream", &f], None, 15) };
+          let _ = std::fs::remove_file(d3.join(&f));
+          out.checked();
+          out.count("special-kind-configurations");
+          if matches!(r.code, Some(0) | Some(1)) {
+            out.nontrivial(&(bi, lang, ti));
+          }
+          if r.timed_out || r.code.is_none() || matches!(r.code, Some(101) | Some(134) | Some(139)) {
+            out.oracle_fail("", &format!("a {lang} rule naming the ERROR kind ({}) on the source text {text:?}: exit {:?} timed_out={} ({})", serde_json::to_string(body).unwrap(), r.code, r.timed_out,
+              r.stderr.lines().find(|l| l.contains("panicked") || l.contains("overflow")).unwrap_or("").chars().take(200).collect::<String>()), json!({"stream": "c11-special-kind", "rule": body, "lang": lang, "source": text}));
+            break;
+          }
+        }
+      }
+    }
+  }
   crate::c11case::run_case_tie(&mut out, &mut rng, if o.thorough { 6000 } else { 1500 });
   out.finish("rule documents from 22 generators (extreme / non-numeric nthChild and substring numbers, An+B strings at the i32 limits, empty / multi-byte / sigil-only transform sources, invalid regexes in regex / replace / expansions, \
               convert on multi-byte acronyms, ranges, reference cycles through all/any/not/matches, nthChild.ofRule and relational rules, cyclic and dangling transformations, rewriters with expanding fixes and unknown ids, \
               textual mutations of a valid rule, random keys and types, labels / metadata / globs) each loaded and run on a source (file and --stdin) by the debug-build CLI in a child process under a 15 s limit; \
               plus project-level cases (orphan snapshot, unknown test id, garbage sgconfig / test / util files, missing directories, custom language without library). \
-              A loaded two-rule configuration is also run (file, -U, --stdin) on about 90 (250) hostile source texts: suppression comments with every kind of continuation (multi-byte, full-width colon, control characters), BOM / CR-only / CRLF, very deep and very long texts, unterminated constructs, random token soup. Failure = panic exit, abort / stack overflow, hang, or a rejection without any message. \
+              A loaded two-rule configuration is also run (file, -U, --stdin) on about 90 (250) hostile source texts: suppression comments with every kind of continuation (multi-byte, full-width colon, control characters), BOM / CR-only / CRLF, very deep and very long texts, unterminated constructs, random token soup; and configurations naming the parser's ERROR kind alone and under every operator, in three languages, on broken and clean sources. Failure = panic exit, abort / stack overflow, hang, or a rejection without any message. \
               Plus the tie of the `convert` word splitter (fid 51): random texts over a 33-character alphabet (ASCII, 2/3/4-byte upper- and lower-case letters, uncased letters, title-case, separators) and acronym + wide-letter texts through kebab/snake conversion, words mapped back to byte ranges. non-trivial = the document was accepted and the scan ran");
 }
